@@ -109,7 +109,7 @@ MISSED_AT_FIRST = {
  "C19-13": "the C++-only `timeout` member was never set; added (it must reach no C option)",
  "C19-14": "every wrapper point was a single call and the mock accepted a missing handle; a second start after a refused one added, and the mock answers a NULL handle like the C API",
  "C20-14": "the thread test asked for the texts of known error values only; values the system has no message for added",
- "C18-10": "NOT CAUGHT: needs another thread changing the parent's environment block between two snapshots inside one start; the threaded mode of the Windows driver gives every thread its own parent block",
+ "C18-10": "missed at first and for all of the first session (needs another thread changing the parent's environment block between two snapshots inside one start); caught since the `envrace` mode of the Windows driver serves a parent block that grows at every snapshot a start takes (ASan: write past the end of the block buffer)",
 }
 
 
